@@ -156,8 +156,12 @@ int main(int argc, char **argv) {
             }
         return H.finish();
     }
+    const int first_lambda = (int)A.i("first_lambda", 0);
+    int drawn = 0;
     H.rc_loop("C01 every gate computes its truth table on every admissible input", [&]() {
         int lambda = *rc::gen::element<int>(128, 80);
+        // the first cases of a job all use one parameter set, so that across jobs every gate is first called under either set (order of first use is part of the history)
+        if (first_lambda && drawn++ < 60) lambda = first_lambda;
         int g = *rc::gen::weightedOneOf<int>({{12, rng<int>(0, 10)}, {1, rng<int>(11, 13)}});
         auto prov = rc::gen::weightedElement<int>({{3, 0}, {2, 1}, {1, 2}, {5, 3}, {2, 4}});
         auto ek = rc::gen::weightedElement<int>({{2, 0}, {2, 1}, {1, 2}, {1, 3}, {1, 4}, {1, 5}, {1, 6}, {2, 7}, {4, 8}, {2, 9}});
